@@ -14,9 +14,8 @@ def run(tier, replay=None):
                 'table; every reflected class: constructor code -> factory -> same class, encoding carries the code; each class '
                 'constructed in memory pre-filled with 00/FF/A5/5A, every reflected member and the encoding compared across patterns')
     res.exhaustive = True
-    res.samples = ['createObject(107) vs table AfdxBusStatistic', 'EnvironmentVariable() -> code -> factory',
-                   'CanSettingChanged constructed in 0xA5-filled memory vs 0x00-filled']
-    res.extra = dict(st)
+    res.samples = st.get('samples', [])[:8]
+    res.extra = {k: v for k, v in st.items() if k != 'samples'}
     if not st.get('codes'):
         res.inconclusive.append('harness produced no statistics')
     return res.finish()
